@@ -537,6 +537,8 @@ func (r *EngineRunner) Exec(f []string) (res string) {
 		return r.listing()
 	case "hintcheck":
 		return r.hintCheck()
+	case "flipsweep": // E flipsweep <maxflips> <seed> <cfg 6 fields>
+		return r.flipSweep(f[4:10], atoi(f[2]), NewRng(uint64(atou(f[3]))))
 	}
 	if strings.HasPrefix(op, "it") {
 		return r.execIter(f)
